@@ -725,10 +725,29 @@ func TestVerifC19NUMAReplay(t *testing.T) {
 			if holders > maxLive {
 				maxLive = holders
 			}
-			sig, msg, about := c19Compare(e, "live", rm, "fresh", fresh)
-			if sig == "" {
-				sig, msg, about = c19Compare(e, "fresh", fresh, "live", rm)
+			// the harness' own statement of what is taken: what Reserve handed to every object that is still active
+			ref := e.newManager(tom)
+			for _, u := range running() {
+				a := model[u]
+				ref.Update(c19Node, &a)
 			}
+			// two oracles: the replayed state equals the live one, and it equals what was handed out (the second also
+			// sees a loss that the live scheduler shares because it re-read its own annotation)
+			compare := func(fr *resourceManager) (sig, msg string, about types.UID, vsModel bool) {
+				sig, msg, about = c19Compare(e, "live", rm, "fresh", fr)
+				if sig == "" {
+					sig, msg, about = c19Compare(e, "fresh", fr, "live", rm)
+				}
+				if sig != "" {
+					return sig, msg, about, false
+				}
+				sig, msg, about = c19Compare(e, "reserve-time", ref, "fresh", fr)
+				if sig == "" {
+					sig, msg, about = c19Compare(e, "fresh", fr, "reserve-time", ref)
+				}
+				return sig, msg, about, true
+			}
+			sig, msg, about, vsModel := compare(fresh)
 			if sig == "" {
 				return
 			}
@@ -742,28 +761,15 @@ func TestVerifC19NUMAReplay(t *testing.T) {
 					}
 				}
 				fresh2 := c19Replay(e, persisted, evs2)
-				sig2, msg2, about2 := c19Compare(e, "live", rm, "fresh", fresh2)
-				if sig2 == "" {
-					sig2, msg2, about2 = c19Compare(e, "fresh", fresh2, "live", rm)
-				}
+				sig2, msg2, about2, vsModel2 := compare(fresh2)
 				if sig2 == "" {
 					lateIsCause = true
 				} else {
-					sig, msg, about, fresh, evs = sig2, msg2, about2, fresh2, evs2
+					sig, msg, about, vsModel, fresh, evs = sig2, msg2, about2, vsModel2, fresh2, evs2
 				}
 			}
-			// attribute: does the replayed state at least agree with what Reserve handed out?
-			ref := e.newManager(tom)
-			for _, u := range running() {
-				a := model[u]
-				ref.Update(c19Node, &a)
-			}
-			fsig, _, _ := c19Compare(e, "reserve-time", ref, "fresh", fresh)
-			if fsig == "" {
-				fsig, _, _ = c19Compare(e, "fresh", fresh, "reserve-time", ref)
-			}
 			full := "numa-replay:" + sig
-			if how, gone := deletedHow[about]; gone && sig == "pod-lost" {
+			if how, gone := deletedHow[about]; gone && sig == "pod-lost" && !vsModel {
 				// not a persistence matter: the allocating scheduler itself still holds an object that was deleted
 				full = "numa-replay:live-keeps-deleted-object:" + how
 			}
@@ -771,7 +777,10 @@ func TestVerifC19NUMAReplay(t *testing.T) {
 				// the scheduling path reads the pod's preferred exclusive policy only for LSE/LSR prod pods with a
 				// FullPCPUs/SpreadByPCPUs policy; the informer path reads it unconditionally
 				spec, _ := extension.GetResourceSpec(o.annotations())
-				lp := rm.GetNodeAllocation(c19Node).allocatedPods[about]
+				lp := model[about]
+				if !vsModel {
+					lp = rm.GetNodeAllocation(c19Node).allocatedPods[about]
+				}
 				if spec != nil && c19NormExcl(lp.CPUExclusivePolicy) == "None" && c19NormExcl(spec.PreferredCPUExclusivePolicy) != "None" {
 					full += ":annotation-not-used-when-scheduling"
 				} else if o.Resv != nil && o.Resv.Spec.Template != nil {
@@ -788,8 +797,15 @@ func TestVerifC19NUMAReplay(t *testing.T) {
 				// already attributed
 			} else if lateIsCause {
 				full += ":pod-event-before-topology"
-			} else if fsig == "" {
-				full += ":live-differs-from-reserve-time"
+			} else if !vsModel {
+				if fsig, _, _ := c19Compare(e, "reserve-time", ref, "fresh", fresh); fsig == "" {
+					if fsig, _, _ = c19Compare(e, "fresh", fresh, "reserve-time", ref); fsig == "" {
+						full += ":live-differs-from-reserve-time"
+					}
+				}
+			}
+			if vsModel {
+				msg = "(live and fresh agree) " + msg
 			}
 			if c.Violation(t, full, "%s\nenv: %s\nhistory: %s\nreplay events: %v\npersisted: %s", msg, e, strings.Join(hist, "\n  "), evs, c19Persisted(persisted)) {
 				dead = true
